@@ -18,6 +18,7 @@ package gradientDescent
 
 /* -------------------------------------------------------------------------- */
 
+import "github.com/pbenner/autodiff/verifhook"
 import   "math"
 
 import . "github.com/pbenner/autodiff"
@@ -45,6 +46,7 @@ func gradientDescent(f func(ConstVector) (MagicScalar, error), x0 Vector, step, 
   gradient := make([]float64, x.Dim())
 
   for {
+    verifhook.Tick("gradientDescent.iter")
     // evaluate objective function
     s, err := f(x)
     if err != nil {
